@@ -58,6 +58,10 @@ def inline_generator_loop(for_node, callee, call, param_offset=1):
         return None
     prefix = '_g%d_' % for_node.lineno
     local = set(params)
+    # a parameter that receives the node itself (module-level helper `_linked_nodes(self)`, analysed on a clone whose
+    # parameter is called self) stays `self`: field accesses through it are the node's fields
+    keep_self = {p for p, arg in zip(params, call.args) if isinstance(arg, ast.Name) and arg.id == 'self' and p == 'self'}
+    local -= keep_self
     for x in own_nodes(gen):
         if isinstance(x, ast.Name) and isinstance(x.ctx, ast.Store):
             local.add(x.id)
@@ -94,7 +98,8 @@ def inline_generator_loop(for_node, callee, call, param_offset=1):
     stmts = []
     bound = set()
     for p, arg in zip(params, call.args):
-        stmts.append(ast.Assign(targets=[ast.Name(id=prefix + p, ctx=ast.Store())], value=arg))
+        if p not in keep_self:
+            stmts.append(ast.Assign(targets=[ast.Name(id=prefix + p, ctx=ast.Store())], value=arg))
         bound.add(p)
     for k in call.keywords:
         if k.arg is None or k.arg not in params:
